@@ -173,3 +173,19 @@ Theorem C03_pb_eigh_adjoint (K : fieldType) (n : nat) : (2%:R : K) != 0 ->
   ip Lambar dLam + ip Qbar dQ = ip (Q *m (Lambar + hadM H (Q^T *m Qbar)) *m Q^T) dA.
 Proof. exact: pb_eigh_adjoint. Qed.
 Print Assumptions C03_pb_eigh_adjoint.
+
+(* ---- the executable lu rule run by the correspondence check (MatPullbackExec2.v) computes, coefficient by coefficient, the abstract
+   rule read over truncated matrix series: v1 = tril1(L^T Lbar) + triu(Ubar U^T), L^T v2 = v1, U v3^T = v2^T as Cauchy sums, result
+   W v3 - and these equations determine it (MatPullbackExec2Spec.v, which has the analogous statements for cholesky and qr) *)
+From AlgoV Require Import MatPullbackExec2 MatPullbackExec2Spec.
+Theorem C03_pb_luU_unique (K : fieldType) n (Wm : mx K) (L U : seq (mx K)) (LinvT0 Uinv0 : mx K) (Lbar Ubar : seq (mx K)) D (w1 w2 w3 : nat -> 'M[K]_n) :
+  size L = D -> size U = D -> size Ubar = D ->
+  (mx_of n n (nth [::] L 0))^T *m mx_of n n LinvT0 = 1%:M ->
+  mx_of n n (nth [::] U 0) *m mx_of n n Uinv0 = 1%:M ->
+  (forall d, (d < D)%N -> w1 d = tril1M (\sum_(c < d.+1) (mx_of n n (nth [::] L c))^T *m mx_of n n (nth [::] Lbar (d - c))) +
+                                 triuM (\sum_(c < d.+1) mx_of n n (nth [::] Ubar c) *m (mx_of n n (nth [::] U (d - c)))^T)) ->
+  (forall d, (d < D)%N -> \sum_(c < d.+1) (mx_of n n (nth [::] L c))^T *m w2 (d - c)%N = w1 d) ->
+  (forall d, (d < D)%N -> \sum_(c < d.+1) mx_of n n (nth [::] U c) *m (w3 (d - c)%N)^T = (w2 d)^T) ->
+  forall d, (d < D)%N -> mx_of n n (nth [::] (pb_luU n Wm L U LinvT0 Uinv0 Lbar Ubar) d) = mx_of n n Wm *m w3 d.
+Proof. exact: pb_luU_unique. Qed.
+Print Assumptions C03_pb_luU_unique.
